@@ -166,13 +166,16 @@ Definition subtract (a b : list string) : list string := filter (fun x => negb (
 Definition expand_all (ms : list string) : list string :=
   if mem "ALL" ms then filter (fun m => negb (String.eqb m "ALL")) ms ++ nine else ms.
 
-Definition create_method_matcher (ms : list string) : res (list string) :=
+(** [fx4]: the candidate repair fixes/C03-F4.diff (a non-empty list that allows no method is
+    a configuration error instead of an empty matcher, which allows every method) *)
+Definition create_method_matcher (fx4 : bool) (ms : list string) : res (list string) :=
   if is_nil ms then Ok [] else
   let ms2 := compact (sort_strings (expand_all ms)) in
   if mem "" ms2 then Rejected else
   let tbr := filter has_bang ms2 in
   let pos := subtract ms2 tbr in
-  Ok (subtract pos (map trim_bang tbr)).
+  let l := subtract pos (map trim_bang tbr) in
+  if fx4 && is_nil l then Rejected else Ok l.
 
 (* ------------------------------------------------------------------ typed matchers *)
 
@@ -223,8 +226,8 @@ Record cmatcher := {
 (** created rule: per route its path expression and matcher *)
 Record crule := { cr_slash : slash; cr_bt : bool; cr_routes : list (string * cmatcher) }.
 
-Definition create_rule (r : ruledef) : res crule :=
-  match create_method_matcher (rl_methods r) with
+Definition create_rule (fx4 : bool) (r : ruledef) : res crule :=
+  match create_method_matcher fx4 (rl_methods r) with
   | Rejected => Rejected
   | Ok mm =>
     if negb (forallb tm_ok (rl_hosts r)) then Rejected else
@@ -250,9 +253,12 @@ Definition scheme_match (s : string) (q : request) : bool :=
 Definition method_match (l : list string) (q : request) : bool :=
   is_nil l || mem (q_method q) l.
 
-(** createHostMatcher returns a compositeMatcher: EVERY host expression must match *)
-Definition hosts_match (eng : engine) (hs : list tmdef) (q : request) : bool :=
-  forallb (fun h => tm_match eng true h (q_host q)) hs.
+(** createHostMatcher returns a compositeMatcher: EVERY host expression must match.
+    [fx1]: the candidate repair fixes/C03-F1.diff (two or more expressions are wrapped into an
+    anyOfMatcher: ONE of them must match) *)
+Definition hosts_match (fx1 : bool) (eng : engine) (hs : list tmdef) (q : request) : bool :=
+  if fx1 && (2 <=? length hs)%nat then existsb (fun h => tm_match eng true h (q_host q)) hs
+  else forallb (fun h => tm_match eng true h (q_host q)) hs.
 
 (** pathParamMatcher.Matches *)
 Definition param_match (fx6 fx7 : bool) (eng : engine) (sl : slash) (q : request) (keys vals : list string) (p : param) : mres :=
@@ -282,10 +288,10 @@ Fixpoint params_match (fx6 fx7 : bool) (eng : engine) (sl : slash) (q : request)
   end.
 
 (** compositeMatcher{sm, mm, hm, ppm}.Matches — in this order, first failure wins *)
-Definition route_matches (fx6 fx7 : bool) (eng : engine) (m : cmatcher) (q : request) (keys vals : list string) : mres :=
+Definition route_matches (fx1 fx6 fx7 : bool) (eng : engine) (m : cmatcher) (q : request) (keys vals : list string) : mres :=
   if negb (scheme_match (cm_scheme m) q) then MNo else
   if negb (method_match (cm_methods m) q) then MNo else
-  if negb (hosts_match eng (cm_hosts m) q) then MNo else
+  if negb (hosts_match fx1 eng (cm_hosts m) q) then MNo else
   params_match fx6 fx7 eng (cm_slash m) q keys vals (cm_params m).
 
 (* ------------------------------------------------------------------ radix tree: Add *)
@@ -574,12 +580,12 @@ Fixpoint entries_of (i : nat) (rs : list crule) : list centry :=
     ++ entries_of (S i) rest
   end.
 
-Fixpoint create_rules (ds : list ruledef) : res (list crule) :=
+Fixpoint create_rules (fx4 : bool) (ds : list ruledef) : res (list crule) :=
   match ds with
   | [] => Ok []
-  | d :: r => match create_rule d with
+  | d :: r => match create_rule fx4 d with
               | Rejected => Rejected
-              | Ok c => match create_rules r with Rejected => Rejected | Ok cs => Ok (c :: cs) end
+              | Ok c => match create_rules fx4 r with Rejected => Rejected | Ok cs => Ok (c :: cs) end
               end
   end.
 
@@ -599,8 +605,8 @@ Inductive loaded :=
 | ModelFuel                    (* never: the fuel of add_node is sufficient *)
 | Loaded (es : list centry) (t : tree).
 
-Definition load (fx3 : bool) (ds : list ruledef) : loaded :=
-  match create_rules ds with
+Definition load (fx3 fx4 : bool) (ds : list ruledef) : loaded :=
+  match create_rules fx4 ds with
   | Rejected => CreateFailed
   | Ok cs =>
     let es := entries_of 0 cs in
@@ -614,10 +620,10 @@ Definition load (fx3 : bool) (ds : list ruledef) : loaded :=
 Definition lookup_path (q : request) : string :=
   if String.eqb (q_rawpath q) "" then q_path q else q_rawpath q.
 
-Definition matcher_of (fx6 fx7 : bool) (eng : engine) (es : list centry) (q : request) : nat -> list string -> list string -> mres :=
+Definition matcher_of (fx1 fx6 fx7 : bool) (eng : engine) (es : list centry) (q : request) : nat -> list string -> list string -> mres :=
   fun vid keys vals =>
     match nth_error es vid with
-    | Some e => route_matches fx6 fx7 eng (ce_m e) q keys vals
+    | Some e => route_matches fx1 fx6 fx7 eng (ce_m e) q keys vals
     | None => MNo
     end.
 
@@ -649,8 +655,8 @@ Definition execute (fx7 : bool) (sl : slash) (q : request) (caps : list (string 
   | _ => (map (fun kv => (fst kv, unescape fx7 (snd kv) sl)) caps, false)
   end.
 
-Definition serve (fx2 fx5 fx6 fx7 : bool) (eng : engine) (es : list centry) (t : tree) (q : request) : outcome * list call :=
-  match tree_find fx2 fx5 (matcher_of fx6 fx7 eng es q) t (lookup_path q) with
+Definition serve (fx1 fx2 fx5 fx6 fx7 : bool) (eng : engine) (es : list centry) (t : tree) (q : request) : outcome * list call :=
+  match tree_find fx2 fx5 (matcher_of fx1 fx6 fx7 eng es q) t (lookup_path q) with
   | (LPanic, cs) => (OPanic, cs)
   | (LNone, cs) => (ONone, cs)
   | (LFound vid params, cs) =>
